@@ -51,6 +51,11 @@ LEVEL_TEXT += (
     "the located cells index the mesh-wide DOF table; finder closures "
     "work on float copies of the query; the interpolator keeps "
     "component axes for points with trailing axes.")
+LEVEL_TEXT += (
+    " Added in the second hunting round (DESIGN.md 9.6): "
+    "elem.dim is read as a number of components only (under an "
+    "ElementVector test); point_source hands on every component row of "
+    "probes().")
 LEVEL_NOTE = ("Trusted: numpy argmax/max/all/tile/flatten; scipy cKDTree "
               "returns candidate cells; gbasis value layout (components..., "
               "cell, point).")
